@@ -389,8 +389,8 @@ theorem evalForInteger_step {fuel : Nat} (ih : Spec fuel) : ∀ body i endV name
   refine Post.ite (fun _ => ?_) (fun _ => hjp st hI (Nat.le_refl _))
   refine Post.bind_read (runM_curEnv st) ?_
   refine Post.bind (post_envSet hI hI.cur name (val := .int (Int64.ofInt i)) (by simp [okObj])) ?_
-  intro _ s hIs hle _
-  exact hjp s hIs hle
+  intro oerr s hIs hle hoerr
+  exact Post.ite (fun _ => Post.pure hIs hoerr) (fun _ => hjp s hIs hle)
 
 theorem evalForList_step {fuel : Nat} (ih : Spec fuel) : ∀ body list name last st, Inv st →
     okObj st.frames.size list = true → okObj st.frames.size last = true →
@@ -404,7 +404,8 @@ theorem evalForList_step {fuel : Nat} (ih : Spec fuel) : ∀ body list name last
   rintro rest s hIs' _ ⟨rfl, hrest⟩
   refine Post.bind_read (runM_curEnv s) ?_
   refine Post.bind (post_envSet hIs' hIs'.cur name hv) ?_
-  intro _ s1 hIs1 hle1 _
+  intro oerr s1 hIs1 hle1 hoerr
+  refine Post.ite (fun _ => Post.pure hIs1 hoerr) (fun _ => ?_)
   refine Post.bind (ih.evalI _ _ hIs1) ?_
   intro r s2 hIs2 hle2 hr
   have hlast' : okObj s2.frames.size last = true := okObj_mono (by omega) _ hlast
